@@ -13,11 +13,12 @@ import DarsiaModel.SignalModels
 namespace Darsia.Sig
 
 /-- element types that occur -/
-inductive DType | u8 | u16 | i64 | f32 | f64 | bool
+inductive DType | u8 | u16 | u32 | u64 | i8 | i16 | i32 | i64 | f16 | f32 | f64 | bool
   deriving DecidableEq, Repr
 
 /-- type of `python_float * array + python_float` (NEP 50: Python floats are weak) -/
 def DType.floatOf : DType → DType
+  | .f16 => .f16
   | .f32 => .f32
   | _ => .f64
 
